@@ -138,6 +138,10 @@ tx_outs:\n{tx_outs}
         for tx_in_1, tx_in_2 in zip(self.tx_ins, tx_obj.tx_ins):
             tx_in_2._value = tx_in_1._value
             tx_in_2._script_pubkey = tx_in_1._script_pubkey
+            # looked up values stay tied to the outpoint they were looked up for
+            for attribute in ("_value_outpoint", "_script_pubkey_outpoint"):
+                if hasattr(tx_in_1, attribute):
+                    setattr(tx_in_2, attribute, getattr(tx_in_1, attribute))
         return tx_obj
 
     def id(self):
@@ -891,22 +895,30 @@ class TxIn:
         """Get the outpoint value by looking up the tx hash
         Returns the amount in satoshi
         """
-        if self._value is None:
+        if self._value is None or self._stale_lookup("_value_outpoint"):
             # use self.fetch_tx to get the transaction
             tx = self.fetch_tx(network=network)
             # get the output at self.prev_index
             self._value = tx.tx_outs[self.prev_index].amount
+            self._value_outpoint = (self.prev_tx, self.prev_index)
         return self._value
+
+    def _stale_lookup(self, attribute):
+        """Whether a looked up value belongs to another outpoint than the current one
+        (values assigned from outside carry no outpoint and are left alone)"""
+        outpoint = getattr(self, attribute, None)
+        return outpoint is not None and outpoint != (self.prev_tx, self.prev_index)
 
     def script_pubkey(self, network="mainnet"):
         """Get the scriptPubKey by looking up the tx hash
         Returns a Script object
         """
-        if self._script_pubkey is None:
+        if self._script_pubkey is None or self._stale_lookup("_script_pubkey_outpoint"):
             # use self.fetch_tx to get the transaction
             tx = self.fetch_tx(network=network)
             # get the output at self.prev_index
             self._script_pubkey = tx.tx_outs[self.prev_index].script_pubkey
+            self._script_pubkey_outpoint = (self.prev_tx, self.prev_index)
         return self._script_pubkey
 
     def finalize_p2pkh(self, sig, sec):
